@@ -133,6 +133,15 @@ CHECKS['C14'] = ('exploration',
          'over multiples of pi/2 +- ladders, +-1e3, generic angles, scalar and array forms.',
          'Bounded to the enumerated letters. One recorded finding (non-idempotent unit twist across the absolute zero threshold) is listed in known_findings.txt.',
          'DESIGN.md 3/C14')
+CHECKS['C15'] = ('exploration',
+         'table-driven exhaustive product: callable x vector parameter x container form x length 0..8 x element type; units x angle ladder; order names',
+         'A signature table of 110 public base functions / class constructors / methods marks vector parameters and their accepted lengths. Each '
+         'vector parameter is supplied as list, tuple, 1-D, row and column array (classes: list, tuple, 1-D), with float and integer elements, and in '
+         'every wrong length 0..8; packed versus separate-scalar call forms; 70 angle-accepting entry points with unit=deg vs rad over the angle ladder '
+         'and with unknown units; angle-returning entry points in both units; every order name, alias and nine misspellings.',
+         'The table is a hand transcription of the docstring annotations (public base names not in it are listed under notes.unclassified in the evidence: '
+         'they take matrices only). Predicates answer wrong lengths with a bool; an empty list handed to a list-capable class is an empty object (C10).',
+         'DESIGN.md 3/C15')
 PENDING = {}
 
 def main():
